@@ -9,7 +9,7 @@ from pyvc.models_ext import unwrap_key
 
 LEVEL = "other"
 MANIFEST_ENTRY = {
-    "text": "Health classification (Checker._format_results): for every per-server result set over up to 3 servers x 3 share numbers (all 512 verified-share distributions, corrupt/incompatible sets present) and EVERY needed/total pair, healthy <=> the number of DISTINCT verified share numbers equals N, recoverable <=> it is >= k, count_shares_good is that number, and corrupt or incompatible shares are never counted as good. Verifier (ValidatedReadBucketProxy._got_data): block data is returned only after block_hash_tree.set_hashes(leaves={blocknum: block_hash(data)}) returned normally, the block tree's root was taken from the share hash tree leaf of this share (after share_hash_tree.set_hashes when hashes were still needed), and every hash-tree failure surfaces as BadOrMissingHash -- the hash trees themselves are under contract in C35. Repair: Repairer.start re-encodes with (k, N) of the verify cap and the segment size delivered by the file node, and CiphertextFileNode.get_segment_size delivers DownloadNode.get_segsize() (the value from the validated UEB), never a guess.",
+    "text": "Health classification (Checker._format_results): for every per-server result set over up to 3 servers x 3 share numbers (all 512 verified-share distributions, corrupt/incompatible sets present) and EVERY needed/total pair, healthy <=> the number of DISTINCT verified share numbers equals N, recoverable <=> it is >= k, count_shares_good is that number, and corrupt or incompatible shares are never counted as good. Verifier: get_all_blockhashes pins the block hash tree's root to this share's VALIDATED leaf of the share hash tree before it accepts any hash supplied by the share (found missing on the pinned tree: D23, fixed), and a native run over real hash trees confirms that every share with one block and its block hash tree rewritten consistently is refused while genuine shares are accepted; ValidatedReadBucketProxy._got_data: block data is returned only after block_hash_tree.set_hashes(leaves={blocknum: block_hash(data)}) returned normally, the block tree's root was taken from the share hash tree leaf of this share (after share_hash_tree.set_hashes when hashes were still needed), and every hash-tree failure surfaces as BadOrMissingHash -- the hash trees themselves are under contract in C35. Repair: Repairer.start re-encodes with (k, N) of the verify cap and the segment size delivered by the file node, and CiphertextFileNode.get_segment_size delivers DownloadNode.get_segsize() (the value from the validated UEB), never a guess.",
     "note": "The full verify/repair pipeline (Deferred chains through ValidatedExtendedURIProxy, CHKUploader, the storage servers) is not under contract: 'repaired shares validate under the original read-cap' and 'repair never alters good shares' are only covered at the three call sites named above. Hash trees are replaced by contract stubs (C35).",
     "technique": "contract-based deductive verification (pyvc VCs + z3, callee contracts for the hash trees); share distributions enumerated up to a bound",
 }
@@ -238,6 +238,146 @@ class GotData(Spec):
         return [("canary", z3.BoolVal(len(out.post["log"]) < 3))]
 
 
+class AllBlockHashes(Spec):
+    """ValidatedReadBucketProxy.get_all_blockhashes: the block hash tree is seeded with THIS share's validated leaf of the
+    share hash tree before any hash supplied by the share is accepted (so the share's own root must equal it)"""
+    file = F
+    qualname = "ValidatedReadBucketProxy.get_all_blockhashes"
+    cross_check = 0
+    canary_case = {"leaf_known": True}
+
+    @property
+    def raises(self):
+        from allmydata.immutable.checker import BadOrMissingHash
+        return (BadOrMissingHash,)
+
+    def inputs(self):
+        return {"leaf_known": ChoiceK([False, True])}
+
+    def all_cases(self):
+        return [{"leaf_known": False}, {"leaf_known": True}]
+
+    def config(self):
+        me = self
+        import allmydata.hashtree as HT
+
+        def set_hashes(I, a, kw):
+            t = a[0]
+            hashes = a[1] if len(a) > 1 else kw.get("hashes", {})
+            entry = ["sht" if t is me._sht else "bht", dict(hashes) if isinstance(hashes, dict) else hashes, "pending"]
+            me._log.append(entry)
+            c = I.path.choose(3)
+            if c == 1:
+                entry[2] = "BadHashError"
+                raise PyRaise(HT.BadHashError("bad"), HT.BadHashError)
+            if c == 2:
+                entry[2] = "NotEnoughHashesError"
+                raise PyRaise(HT.NotEnoughHashesError("few"), HT.NotEnoughHashesError)
+            entry[2] = "ok"
+
+        def get_leaf(I, a, kw):
+            me._log.append(["sht.get_leaf", a[1], "ok"])
+            return me._leaf if me._a["leaf_known"] else None
+        return {"overrides": {"IncompleteHashTree.set_hashes": set_hashes, "CompleteBinaryTreeMixin.get_leaf": get_leaf, "PrefixingLogMixin.log": noop}}
+
+    def run(self, I, a):
+        import allmydata.hashtree as HT
+        from pyvc.models_tahoe import DStub
+        self._a, self._log = a, []
+        self._leaf = b"L" * 32
+        self._sht = SObj(HT.IncompleteHashTree, {"__list__": [None] * 7})
+        self._bht = SObj(HT.IncompleteHashTree, {"__list__": [None] * 3})
+        d0 = DStub("pending")
+        bucket = stub("bucket", get_block_hashes=lambda I_, a_, k_: d0)
+        v = SObj(self.module().ValidatedReadBucketProxy, {"sharenum": 3, "bucket": bucket, "share_hash_tree": self._sht, "num_blocks": 2, "block_hash_tree": self._bht})
+        d = I.call_value(self.target(I), [v], {})
+        self._from_share = [b"r" * 32, b"x" * 32, b"y" * 32]
+        res, _ = fire_chain(I, d0, list(self._from_share))
+        if is_failure(res):
+            raise PyRaise(res.exc, res.exc_cls)
+        return res
+
+    def ensures(self, I, a, out):
+        bht = [e for e in self._log if e[0] == "bht"]
+        if out.kind == "raise":
+            return [("the-share-is-refused-only-when-a-tree-refused-or-its-leaf-is-not-validated-yet", z3.BoolVal((not a["leaf_known"]) or any(e[2] not in ("ok", "pending") for e in self._log))),
+                    ("hashes-from-the-share-are-never-accepted-before-the-root-is-pinned", z3.BoolVal(not bht or bht[0][1] == {0: self._leaf}))]
+        return [("the-root-is-pinned-to-this-shares-validated-leaf-first", z3.BoolVal(a["leaf_known"] and len(bht) == 2 and bht[0][1] == {0: self._leaf} and any(e[0] == "sht.get_leaf" and e[1] == 3 for e in self._log))),
+                ("then-all-hashes-from-the-share-are-checked-against-it", z3.BoolVal(len(bht) == 2 and bht[1][1] == dict(enumerate(self._from_share)) and all(e[2] == "ok" for e in bht)))]
+
+    def canary(self, I, a, out):
+        return [("canary", z3.BoolVal(out.kind != "return"))]
+
+
+def tampered_share_failures():
+    """native regression for D23: a share whose block data and block hash tree were rewritten consistently must be
+    refused by the verifier's bucket proxy; the genuine share must be accepted"""
+    from twisted.internet import defer
+    from allmydata import hashtree
+    from allmydata.util import hashutil
+    from allmydata.immutable.checker import ValidatedReadBucketProxy
+    bad = []
+    n = 0
+    NUM_SHARES = 4
+    for num_blocks in (1, 2, 3, 4, 5):
+        def blocks_of(tag):
+            return [(b"%s-block-%d" % (tag, i)).ljust(16, b".") for i in range(num_blocks)]
+
+        def bht_of(blocks):
+            return hashtree.HashTree([hashutil.block_hash(b) for b in blocks])
+        genuine = {sh: blocks_of(b"share%d" % sh) for sh in range(NUM_SHARES)}
+        share_tree = hashtree.HashTree([bht_of(genuine[sh])[0] for sh in range(NUM_SHARES)])
+        for shnum in range(NUM_SHARES):
+            for victim in [None] + list(range(num_blocks)):
+                n += 1
+                data = list(genuine[shnum])
+                if victim is not None:
+                    data[victim] = b"EVIL DATA".ljust(16, b".")
+                tree = bht_of(data)
+
+                class Bucket(object):
+                    def get_share_hashes(self):
+                        return defer.succeed([(i, share_tree[i]) for i in sorted(share_tree.needed_hashes(shnum, include_leaf=True))])
+
+                    def get_block_hashes(self, needed):
+                        return defer.succeed(list(tree))
+
+                    def get_block_data(self, blocknum, blocksize, thissize):
+                        return defer.succeed(data[blocknum])
+
+                    def __repr__(self):
+                        return "<bucket>"
+                sht = hashtree.IncompleteHashTree(NUM_SHARES)
+                sht.set_hashes({0: share_tree[0]})
+                v = ValidatedReadBucketProxy(shnum, Bucket(), sht, num_blocks, 16, 16 * num_blocks)
+                outcome = []
+                d = v.get_all_sharehashes()
+                d.addCallback(lambda ign: v.get_all_blockhashes())
+                for i in range(num_blocks):
+                    d.addCallback(lambda ign, i=i: v.get_block(i))
+                d.addCallbacks(lambda last: outcome.append("accepted"), lambda f: outcome.append("refused:" + f.type.__name__))
+                want = "accepted" if victim is None else "refused"
+                if not outcome or not outcome[0].startswith(want):
+                    bad.append({"num_blocks": num_blocks, "share": shnum, "rewritten_block": victim, "verifier": outcome})
+    return bad, n
+
+
+def extra_checks(rep, tier):
+    bad, n = tampered_share_failures()
+    name = "Verifier:a-share-rewritten-consistently-with-its-own-block-hash-tree-is-refused-and-genuine-shares-are-accepted"
+    rep.obligations += 1
+    rep.bounded_obligations += 1
+    rep.paths += n
+    rep.sym_paths += n
+    rep.bounds.append("verifier bucket proxy run natively with real hash trees: 1..5 blocks x 4 shares x (genuine | each single block rewritten with a rebuilt block hash tree) = %d shares" % n)
+    if not bad:
+        rep.discharged += 1
+        rep.discharged_names.add(name)
+        return
+    rep.violations.append({"property": "C45", "contract": "Verifier", "obligation": name, "status": "runtime", "inputs": bad[0],
+                           "native_outcome": "%d of %d shares misjudged; first: %r" % (len(bad), n, bad[0]), "confirmed_on_real_code": True})
+
+
 class RepairerStart(Spec):
     """Repairer.start: encoding parameters are (k, 0, N, segsize) with k, N from the verify cap and segsize from the node"""
     file = "allmydata/immutable/repairer.py"
@@ -315,4 +455,4 @@ class GetSegmentSize(Spec):
 
 
 def contracts(tier):
-    return [FormatResults(), GotData(), RepairerStart(), GetSegmentSize()]
+    return [FormatResults(), GotData(), AllBlockHashes(), RepairerStart(), GetSegmentSize()]
